@@ -72,6 +72,9 @@ def parseOpH (j : Json) : Except String OpH := do
   | "lock" => return .lock (← getNat j "t") (← getNat j "p")
   -- `t.e_ = True`: the Event parameter fires its own watchers and resets itself; nothing of the model's world moves
   | "trigger" => return .base (.update (← getNat j "t") [])
+  -- a rejected class-level assignment to a parameter outside the model: as far as the model's world goes, an
+  -- `update` naming an unknown key (ValueError, nothing changes, nothing announced)
+  | "setClsX" => return .base (.update (← getNat j "t") [(1000000, .atom (.lit 0))])
   | _ => return .base (← parseOp j)
 
 def parseHook (j : Json) : Except String Hook := do
@@ -242,9 +245,10 @@ def handle (req : Json) : Except String Json := do
           | none => []
         | .error _ => []
       | none => []
+    let subCase := (getOpt case "sub").bind (·.getBool?.toOption) |>.getD false
     let constFlags (ds : List PDecl) : List Int := ds.map fun d => if d.constant || d.readonly then 1 else 0
     let aux0 : List (List Int) := ((tds.take w1.tgts.length).map fun td =>
-      [0, 0, 0] ++ constFlags (td.1.map (·.1)) ++ constFlags (td.1.map (·.1)) ++ td.1.map (fun _ => 1) ++ [1]) ++ dynRow
+      [0, 0, 0] ++ constFlags (td.1.map (·.1)) ++ constFlags (td.1.map (·.1)) ++ td.1.map (fun _ => 1) ++ [1, if subCase then 0 else 1, 1]) ++ dynRow
     let sub := (getOpt case "sub").bind (·.getBool?.toOption) |>.getD false
     let own0 : List (List Int) := tds.map fun td => td.1.map fun _ => if sub then 0 else 1
     if !hcfg.ok c then throw "hooks: a hook assigns the parameter it watches, or hooks chain"
